@@ -20,7 +20,14 @@
      ctx_blind p      no part of p looks at the context: every source is an SScriptNC, there is
                       no Flatten (its outer stream is a FromIterator, which does look)
 
-   Sources.  All statements quantify over all sources of Iter/Syntax.v, of both attitudes to
+     perr e fl p      p reaches a stream.Error(e) with its first inner Next (Iter/ErrorSource.v):
+                      the source SError e itself, or Peek / Compact / Filter / Map / While /
+                      FlattenSlices(Chunk) / FlattenSlices(Runs) / First n (n >= 1) over such a
+                      pipeline, or a Join - with fl = true also a Flatten - whose first stream
+                      is one
+
+   Sources.  All statements quantify over all sources of Iter/Syntax.v (stream.Error(e) = SError e
+   among them: an unretryable fault and nothing else, src_codes = [e]), of both attitudes to
    the context: FromIterator sources and SScript check the context first (expired: the context
    error, nothing consumed); SScriptNC never looks at it - called with an expired context it
    hands over, and consumes, its next scripted event exactly as with a live one (slice-backed
@@ -30,7 +37,7 @@
    and C08_ctx_blind_* say that none does. *)
 From Juniper Require Import Common.Base Iter.Syntax Iter.Config Iter.ModelBase Iter.IterModel
   Iter.StreamModel Iter.Spec Iter.IterProofs Iter.StreamProofs Iter.StreamFatal Iter.SReducers
-  Iter.GapsLazy Iter.GapsLazyS.
+  Iter.GapsLazy Iter.GapsLazyS Iter.ErrorSource.
 
 (* Fatal half.  For every pipeline in the documented domain in which nothing panics
    (no_panics p = true: a panic is neither an item nor an error - [legal_until] has no place for
@@ -98,6 +105,60 @@ Theorem C08_fatal_last : forall cfg p live k,
   results (run_stream_cfg cfg (inl p) (Reduce (RLast n) live))
   = [RVal (lastn (Z.to_nat n) (den_z (pz_scrub k p)))].
 Proof. exact stream_last_fatal. Qed.
+
+(* stream.Error(E) under every combinator and every reducer: E itself is what the caller gets.
+   For every pipeline that reaches a stream.Error(e) with its first inner Next (perr; callbacks
+   arbitrary - none is ever invoked -, the later streams of a Join / Flatten arbitrary) and every
+   consumer program - Next with live or expired contexts, any number of times, Close anywhere -
+   each Next answers exactly Err e: no item, no end, no other error, no panic; each Close
+   returns.  Pipelines with a Flatten: for programs whose Next calls have live contexts (the
+   outer stream of a Flatten is a FromIterator, which answers an expired context itself). *)
+Theorem C08_error_source : forall e cfg fl p ops,
+  perr_p e fl p -> (fl = true -> Forall (fun o => ~ expired_next o) ops) ->
+  results (run_stream_cfg cfg p (Steps ops)) = map (error_answer e) ops.
+Proof. exact error_source_program. Qed.
+
+(* Collect, Last (n >= 0; every n with the guard), One and Reduce return e (the reduction
+   function is never invoked) *)
+Theorem C08_error_source_reducers : forall e cfg fl p r live,
+  perr e fl p -> (fl = true -> live = true) -> error_reducer cfg r ->
+  results (run_stream_cfg cfg (inl p) (Reduce r live)) = [RErr e].
+Proof. exact error_source_reduce. Qed.
+
+(* in the vocabulary of the fatal half: the source's code is the fault code, the source ignores
+   the context, denotes nothing, continues with k when scrubbed, and is not "ok" *)
+Theorem C08_error_source_vocabulary : forall id e k,
+  pz_codes (ZSrc id (SError e)) = [e] /\
+  ctx_blind_z (ZSrc id (SError e)) /\
+  den_z (ZSrc id (SError e)) = [] /\
+  pz_scrub k (ZSrc id (SError e)) = ZSrc id (SScriptNC k) /\
+  ~ okz true (ZSrc id (SError e)).
+Proof. exact error_source_vocabulary. Qed.
+
+(* Non-vacuity (computed): every combinator and reducer directly over stream.Error(7); and the
+   limits of perr: First 0 never asks its stream, an unstarted Flatten answers an expired
+   context itself, a Join reports the error when it gets to the failing stream *)
+Example C08_error_source_examples :
+  let E := ZSrc 0 (SError 7) in
+  let prog := Steps [CNext true; CNext false; CNext true; CClose; CNext true] in
+  let want := [RErr 7; RErr 7; RErr 7; RUnit; RErr 7] in
+  map (fun p => results (run_stream p prog))
+    [inl E; inl (ZPeek E); inl (ZCompact RelEq E); inl (ZFilter PrTrue never_fails E);
+     inl (ZFirst 2 E); inl (ZJoin [E; ZSrc 1 (SSlice [1; 2])]); inl (ZMap (FnAffine 1 0) never_fails E);
+     inl (ZWhile PrTrue never_fails E); inl (ZFlattenSlices (LChunk 2 E));
+     inl (ZFlattenSlices (LRuns RelEq None E)); inr (LChunk 3 E); inr (LRuns RelEq (Some 1%nat) E)]
+  = repeat want 12 /\
+  map (fun r => results (run_stream (inl (ZMap (FnAffine 2 1) never_fails E)) (Reduce r false)))
+    [RCollect; RLast 0; RLast 2; ROne; RSum never_fails]
+  = repeat [RErr 7] 5 /\
+  results (run_stream (inl (ZFlatten [E; ZSrc 1 (SSlice [1])])) (Steps [CNext true; CNext true]))
+  = [RErr 7; RErr 7] /\
+  results (run_stream (inl (ZFlatten [E])) (Steps [CNext false; CNext true; CNext false]))
+  = [RErr (-1); RErr 7; RErr 7] /\
+  results (run_stream (inl (ZFirst 0 E)) (Steps [CNext true])) = [REnd] /\
+  results (run_stream (inl (ZJoin [ZSrc 1 (SSlice [1]); E])) (Steps [CNext true; CNext true; CNext true]))
+  = [RItem (IZ 1); RErr 7; RErr 7].
+Proof. exact error_source_examples. Qed.
 
 (* Retry half.  Pipelines without unretryable faults but with ANY number and placement of
    transient source errors and of Next calls with an expired context, over sources of either
@@ -230,6 +291,9 @@ Print Assumptions C08_fatal_collect.
 Print Assumptions C08_fatal_reduce.
 Print Assumptions C08_fatal_one.
 Print Assumptions C08_fatal_last.
+Print Assumptions C08_error_source.
+Print Assumptions C08_error_source_reducers.
+Print Assumptions C08_error_source_vocabulary.
 Print Assumptions C08_retry.
 Print Assumptions C08_retry_erased.
 Print Assumptions C08_retry_costs_nothing_ctx_ignoring_source.
